@@ -209,6 +209,7 @@ type SecRec struct { // secondary-store call
 
 // RestartRec: one save / close / downtime / new cache / load cycle (op "restart").
 type RestartRec struct {
+	BeginSeq uint64 // the restart began (SaveCache about to start)
 	SaveSeq  uint64 // SaveCache had returned
 	SaveT    int64
 	LoadSeq  uint64 // new cache built, LoadCache about to start
